@@ -4,9 +4,9 @@ use exact::{dy, Dy};
 use serde_json::json;
 use xplore::*;
 
-const KX: [f64; 6] = [1.0, 0.5, 2.0, 7.5, 1e-3, 1e3];
+const KX: [f64; 8] = [1.0, 0.5, 2.0, 7.5, 1e-3, 1e3, 1e7, 3e8];
 const KY: [f64; 3] = [0.0, 2.0, -1e3];
-const AB: [f64; 9] = [0.25, 0.5, 1.0, 2.0, 3.0, 10.0, 1e-3, 1e-6, 1e3];
+const AB: [f64; 11] = [0.25, 0.5, 1.0, 2.0, 3.0, 10.0, 1e-3, 1e-6, 1e3, 1e7, 3e8];
 const CUBE: [f64; 3] = [0.0, 1.0, -0.5];
 const LANE_ID: [f64; 9] = [1.5, -2.25, 3.125, -4.0625, 5.5, -6.75, 7.875, -8.9375, 9.96875];
 
@@ -47,6 +47,11 @@ pub fn big_g(q: &[Dy], m: &[Dy], t: f64) -> (Dy, Dy, Dy) {
     (td.mul(&s), td.mul(&mm), td.mul(&sens).mul(&dy(exact::ulp(l))).mul_i(2))
 }
 
+/// scale of a coefficient vector produced by `coeffs` (largest power of two not above the largest magnitude; 1 for ordinary vectors)
+fn scale_of(c: &[f64]) -> f64 {
+    let m = c.iter().fold(0.0f64, |m, v| m.max(v.abs()));
+    if m < 1e-10 { 8.673617379884035e-19 } else if m > 1e9 { 1099511627776.0 } else { 1.0 }
+}
 fn coeffs(cx: &mut Cx, n: usize, cube_from: usize) -> Vec<f64> {
     // unit vectors, all ones, alternating, lane identifier, then the cube over {0,1,-0.5}
     let k = cx.choose(n + 4);
@@ -115,6 +120,13 @@ where
             // quartic special form k + v*sum c_j x^j + u*v*x^5*R(x): the term u*v*x^5*R(x) ~ u*v*e^x carries the rounding of
             // x = -ln v with sensitivity |u| (independent of v): propagate 2 ulp of ln at both evaluation points
             tol = tol.add(&dy(nums[5]).abs().mul(&dy(exact::ulp(a.ln())).add(&dy(exact::ulp(b.ln())))).mul_i(2));
+            // and the evaluation of the quartic form itself is only required to be accurate to 1e-12 of its term magnitudes (C10)
+            use crate::c14::ValueLevel;
+            let f4 = IntOfLogPoly4::from_nums(nums);
+            let t = 1e-12 * (f4.major(a) + f4.major(b));
+            if t.is_finite() {
+                tol = tol.add(&dy(t));
+            }
         }
         if ya.is_finite() && yb.is_finite() {
             cx.ratio(dy(yb).sub(&dy(ya)).sub(&want).abs().to_f64() / tol.to_f64());
@@ -152,8 +164,18 @@ pub fn check(thorough: bool, _seed: u64) -> Check {
         body: Box::new(move |unit, cx| {
             let d = unit / nk;
             let k = unit % nk;
-            let knot = Knot { x: KX[k / KY.len()], y: KY[k % KY.len()] };
             let c = coeffs(cx, d + 1, if thorough { 0 } else { (d + 1).saturating_sub(7) });
+            let kx = KX[k / KY.len()];
+            // knot.y: alphabet value scaled like the coefficients, or a value on / next to the unshifted antiderivative G0(kx) = kx*q(ln kx)
+            let ymode = cx.choose(4);
+            let ky = if ymode == 0 {
+                KY[k % KY.len()] * scale_of(&c)
+            } else {
+                let (qq, m) = exact_q(&c);
+                let (g0, _, _) = big_g(&qq, &m, kx);
+                g0.to_f64() * (1.0 + [0.0, 0.0, 3e-10, 1e-6][ymode]) + if ymode == 1 { 0.0 } else { 0.0 }
+            };
+            let knot = Knot { x: kx, y: ky };
             let (a, b) = p2[(cx.choose(5) * 17 + 3) % np];
             if knot.x != 1.0 && a != 1.0 && b != 1.0 {
                 cx.nontrivial();
@@ -166,7 +188,7 @@ pub fn check(thorough: bool, _seed: u64) -> Check {
         }),
         classes: vec![("quartic_special_form", true), ("generic_form", true)],
         bounds: json!({"degrees": "0..8", "coefficients": "unit vectors, all ones, alternating, lane identifier, cube over {0,1,-0.5} (last 7 lanes quick, all lanes thorough)",
-            "knots": "x in {1,0.5,2,7.5,1e-3,1e3} x y in {0,2,-1e3}", "(a,b)": "5 pairs per leaf"}),
+            "knots": "x in {1,0.5,2,7.5,1e-3,1e3,1e7,3e8} x y in {0,2,-1e3} (scaled like the coefficients) and y = G0(x)*(1+d), d in {0,3e-10,1e-6} (knot on / next to the unshifted antiderivative)", "(a,b)": "5 pairs per leaf"}),
     };
     let pairs_ph = Phase {
         name: "definite-integrals",
@@ -187,7 +209,7 @@ pub fn check(thorough: bool, _seed: u64) -> Check {
             by_degree!(d, leaf(&c, knot, a, b, cx))
         }),
         classes: vec![("quartic_special_form", true), ("generic_form", true)],
-        bounds: json!({"degrees": "0..8", "coefficients": "as in phase knots", "(a,b)": "all ordered pairs of distinct values from {0.25,0.5,1,2,3,10,1e-3,1e-6,1e3}", "knot": "(2,5)",
+        bounds: json!({"degrees": "0..8", "coefficients": "as in phase knots", "(a,b)": "all ordered pairs of distinct values from {0.25,0.5,1,2,3,10,1e-3,1e-6,1e3,1e7,3e8}", "knot": "(2,5)",
             "oracle": "exact q from q_n=p_n, q_i=p_i-(i+1)q_(i+1); G(t)=t*q(L), L=ln t as f64; tolerance 2^-40*sum Qbar_i(a|L_a|^i+b|L_b|^i) + 2 ulp(L) sensitivity"}),
     };
     Check {
